@@ -38,16 +38,28 @@ func (mh *MessageHandler) FromNet(p peer.ID, r io.Reader) (message.GraphSyncMess
 
 // FromMsgReader can deserialize a DAG-CBOR message into a GraphySyncMessage
 func (mh *MessageHandler) FromMsgReader(_ peer.ID, r msgio.Reader) (message.GraphSyncMessage, error) {
+	// io.EOF is only returned when the stream ends where a message would begin: callers treat
+	// it as the clean end of the stream. A message cut short anywhere else is an error.
+	if _, err := r.NextMsgLen(); err != nil {
+		return message.GraphSyncMessage{}, err
+	}
 	msg, err := r.ReadMsg()
 	if err != nil {
-		return message.GraphSyncMessage{}, err
+		return message.GraphSyncMessage{}, notEOF(err)
 	}
 
 	ipldGSM, err := ipldbind.BindnodeRegistry.TypeFromBytes(msg, (*ipldbind.GraphSyncMessageRoot)(nil), dagcbor.Decode)
 	if err != nil {
-		return message.GraphSyncMessage{}, err
+		return message.GraphSyncMessage{}, notEOF(err)
 	}
 	return mh.fromIPLD(ipldGSM.(*ipldbind.GraphSyncMessageRoot))
+}
+
+func notEOF(err error) error {
+	if err == io.EOF {
+		return io.ErrUnexpectedEOF
+	}
+	return err
 }
 
 // ToProto converts a GraphSyncMessage to its ipldbind.GraphSyncMessageRoot equivalent
